@@ -198,6 +198,49 @@ func (e *Engine) VerifyFunc(key string) (*Gen, core.FuncInfo) {
 			}
 		}
 	}
+	// declared frame: the inferred set of modified heap components must be within the assigns clause
+	if g.con != nil && len(g.con.Assigns) > 0 {
+		var allowed []string
+		for _, a := range g.con.Assigns {
+			allowed = append(allowed, strings.Fields(a)...)
+		}
+		mods := map[string]bool{}
+		for _, r := range fr.rets {
+			for k, v := range r.st.heap {
+				if bi := g.bases[k]; bi != nil && !bi.local && v != k+"!0" {
+					mods[k] = true
+				}
+			}
+		}
+		for _, lm := range g.loopMods {
+			for k := range lm {
+				if bi := g.bases[k]; bi != nil && !bi.local {
+					mods[k] = true
+				}
+			}
+		}
+		var bad []string
+		for k := range mods {
+			ok := false
+			for _, a := range allowed {
+				if a == k || (strings.HasSuffix(a, "*") && strings.HasPrefix(k, strings.TrimSuffix(a, "*"))) {
+					ok = true
+				}
+			}
+			if !ok {
+				bad = append(bad, k)
+			}
+		}
+		sort.Strings(bad)
+		p := &pending{name: key + "/frame/assigns", kind: "frame", detail: "heap components modified (inferred from every store/map update/call in the translated SSA) are within the assigns clause: " + strings.Join(allowed, " ")}
+		if len(bad) == 0 {
+			p.cond = "true"
+		} else {
+			p.cond = "false"
+			p.detail += "; modified outside the frame: " + strings.Join(bad, ", ")
+		}
+		g.obls = append(g.obls, p)
+	}
 	// canary: some exit is reachable under the accumulated assumptions
 	var conds []string
 	for _, r := range fr.rets {
